@@ -216,10 +216,24 @@ def check(case):
         if nt:
             labels.add("nontrivial")
         labels.add("grid-%d" % min(len(case["grid"]), 9))
+        kf_sm = None
+        if sm_model is not None:
+            for t in (0, 1):
+                if t not in docs:
+                    continue
+                finds = [f for f in oracle.compare(docs[t], sm_model, sm_label_of, t, cfg) if f.cat in ("KEY_MISSING", "KEY_EXTRA", "SHAPE_MISSING", "SHAPE_UNEXPECTED")]
+                bad = [f for f in finds if f.sig not in KNOWN]
+                if bad:
+                    what = "something observed is omitted" if t == 0 else "a feature not shared by all instances remains"
+                    return violation("at threshold %d %s: %s\nshape map:\n%s\n%s" % (t, what, "; ".join(map(repr, bad[:3])), kw["shape_map_raw"], texts[t]), labels, True)
+                if finds:
+                    kf_sm = finds[0].sig
         if kf_goneref:
             return known("C02-GONEREF", repr(kf_goneref[0]), labels, nt)
         if kf_nonlit:
             return known("C12-NONLIT", repr(kf_nonlit[0]), labels, nt)
+        if kf_sm:
+            return known(kf_sm, "", labels, nt)
         return ok(labels, nt)
     # end points against the reference profiler
     M, sel, label_of = common.model_for(case, triples)
